@@ -3,6 +3,7 @@ import UmProofs.CoordMig
 import UmProofs.CoordCoherent
 import UmProofs.BrokerViewPartF
 import UmProofs.CoordDischarge
+import UmProofs.CoordStale
 import UmProps.C13
 /-!
 # C07 — the control plane converges despite message faults and coordinator crashes
@@ -20,6 +21,9 @@ call; rounds of other coordinators nest at call boundaries).
 * `C07_commit_once` — a task is committed at most once: the second commit of the same
   `(cluster, ranges, epoch)` is `MIGRATION_TASK_NOT_FOUND` (which the coordinator's HTTP client maps
   to success) and leaves the store as it is.
+* `C07_commit_stale`, `C07_stale_commit_delivery` — a commit whose `(ranges, epoch)` is not pending (old epoch of
+  the same ranges, any other mismatch) is refused with a 404 code and changes nothing — store and whole system —
+  whenever it is delivered (duplicate, delayed, re-delivered after later rounds).
 * `C07_dst_before_src` — inside one `sync_migration_state`, whatever the faults: commit, then only
   calls about the destination, then only calls about the source, and the source is contacted only
   after the destination's `set_cluster_meta` returned `Ok`.
@@ -81,6 +85,28 @@ theorem C07_commit_once {s s1 : Store} {name : String} {c : Cluster} (hf : s.fin
     ¬ PendingIn s1 name ranges epoch ∧
     statusOf Err.migrationTaskNotFound.code = Um.Gen.Coord.COMMIT_OK_STATUS :=
   ⟨(commitCore_twice hf hinv h).1, (commitCore_twice hf hinv h).2, status_taskNotFound⟩
+
+/-- **a commit request that names no running migration changes nothing.** `commit_migration` matches by
+`(ranges, epoch)`: a descriptor with another epoch than the pending entry of these ranges (a delayed duplicate of an
+earlier migration's commit while a later migration of the same ranges is running), other ranges, or an unknown
+cluster is answered `MIGRATION_TASK_NOT_FOUND` / `CLUSTER_NOT_FOUND` and the store is returned as it was; both
+codes map to the status the coordinator counts as success. No invariant needed; any store. -/
+theorem C07_commit_stale (s : Store) (name : String) (ranges : RangeList) (epoch : Nat)
+    (h : ∀ c, s.findCluster name = some c → ∀ m ∈ c.migs, m.isMigrating = true → m.ranges = ranges → m.mm.epoch ≠ epoch) :
+    (commitMigrationCore s name ranges epoch false = (s, R.err Err.clusterNotFound) ∨
+     commitMigrationCore s name ranges epoch false = (s, R.err Err.migrationTaskNotFound)) ∧
+    statusOf Err.clusterNotFound.code = Um.Gen.Coord.COMMIT_OK_STATUS ∧
+    statusOf Err.migrationTaskNotFound.code = Um.Gen.Coord.COMMIT_OK_STATUS :=
+  ⟨commitCore_stale (not_pending_of_epoch_ne h), status_clusterNotFound, status_taskNotFound⟩
+
+/-- the same for the delivered call — first delivery, duplicate, delayed delivery in a later round, or a
+re-delivery at any later time (`Sys.redeliver`): the whole system state (broker, proxies, bag) is unchanged -/
+theorem C07_stale_commit_delivery (s : Sys) (t : Task) {mi : MigInfo} (ht : tagInfo t.sr.tag = some mi)
+    (h : ¬ PendingIn s.broker t.cluster t.sr.ranges (taskEpoch t)) (ch : String) :
+    (exec s (.commit t) ch).1 = s ∧ (s.redeliver (.commit t)).1 = s ∧
+    ((exec s (.commit t) ch).2 = .unit Err.clusterNotFound.code ∨
+     (exec s (.commit t) ch).2 = .unit Err.migrationTaskNotFound.code) :=
+  ⟨(exec_commit_stale s ht h ch).1, redeliver_commit_stale s ht h, (exec_commit_stale s ht h ch).2⟩
 
 /-- **the destination is served before the source** -/
 theorem C07_dst_before_src (hk : Hook) (st : RS) (t : Task) {mi : MigInfo} (ht : tagInfo t.sr.tag = some mi) :
@@ -292,5 +318,14 @@ example : ∃ s1, commitMigrationCore exStore "c" [(4096, 8191)] 7 false = (s1, 
     simp [Cluster.migs, exCluster, Chunk.migs, exChunk0]
   obtain ⟨_, _, _, _, _, _, _, _, _, _, hcore⟩ := commitCore_pending (s := exStore) hf exCluster_commitInv hm rfl
   exact ⟨_, hcore, (C07_commit_once hf exCluster_commitInv hcore).1⟩
+
+/-- `C07_commit_stale` on the worked example: epoch 6 is not the epoch (7) of the pending migration of these ranges -/
+example : commitMigrationCore exStore "c" [(4096, 8191)] 6 false = (exStore, R.err Err.migrationTaskNotFound) := by
+  have hf : exStore.findCluster "c" = some exCluster := by simp [exStore, Store.findCluster, exCluster]
+  apply commitCore_unknown (s := exStore) hf
+  intro m hm _ hre
+  simp only [Cluster.migs, exCluster, Chunk.migs, exChunk0, exChunk1, List.flatMap_cons, List.flatMap_nil,
+    List.append_nil, List.cons_append, List.nil_append, List.mem_cons, List.not_mem_nil, or_false] at hm
+  rcases hm with rfl | rfl | rfl | rfl <;> simp [exMeta0, exMeta1] at hre
 
 end Um.Coord.C07
